@@ -22,6 +22,18 @@ CLAIMED['C10'] = dict(ref='5.10', text='For every NByteEnumParsable factory the 
 CLAIMED['C12'] = dict(ref='5.12', text='For every vector class with fixed-size items (numeric, opaque, coded) and every sequence operation (insert, append, del/pop by index, item assignment, slice deletion, slice assignment, extend, +=, clear, reverse), starting from an arbitrary vector that satisfies the representation invariant (symbolic length, contents, position and values): success implies the invariant and the result a plain list would hold, a refused edit raises a data-length error (or the list IndexError) and changes nothing; compose() emits a prefix equal to the body size that fits its width. Preservation by every operation makes the invariant inductive over edit histories of any length.',
                 note='vectors of variable-size items (size is a sum over items) and MutableSequence.remove are not covered; MutableSequence mix-ins interpreted from the stdlib source; pyvc and z3 trusted.',
                 technique='contract-based deductive verification: representation invariant + refinement to a list model per operation (inductive over histories), loop contracts, z3')
+CLAIMED['C01'] = dict(ref='5.1', text='Clause K3 for the binary-layer classes listed in the evidence: a symbolic object is built by the real constructor from type-directed symbolic arguments (the domain is what constructor and compose accept), composed, followed by arbitrary bytes and parsed again; acceptance, consumed length == composed length and field-wise equality are discharged by z3 for all field values; coded and numeric vectors of any length via loop contracts. Classes outside the supported subset and text-layer classes are named as uncovered; genuine asymmetries are known findings whose regions are excluded and replayed on every run.',
+                note='domain clauses: ASCII text fields, whole-second instants, fallback items carry unassigned codes; vectors of variable-size items with at most 1 item are bounded units (not counted); externals by assumed contracts; pyvc and z3 trusted.',
+                technique='contract-based deductive verification: round-trip postcondition K3 over symbolic execution of the real compose/_parse with sidecar contracts and loop contracts, z3')
+CLAIMED['C04'] = dict(ref='5.4', text='Clause K7 for the framing units listed in the evidence: for a symbolic valid frame and a symbolic cut position m < len (every cut, inside headers and length fields included) the parser raises NotEnoughData(k) with 1 <= k <= bytes really missing and never accepts the prefix; the reader-loop statement is a lemma over K7, K3 (C01) and K8 (C03).',
+                note='TLS hello messages, SSL 2.0 and SSH records are not covered by K7 yet (exploration budget / generator hints); LDAP is external; same domain clauses as C01.',
+                technique='contract-based deductive verification: prefix-rejection postcondition K7 with a symbolic cut position over the real compose/_parse, z3')
+CLAIMED['C06'] = dict(ref='5.6', text='Clause K6 for 50 TLS classes: compose() of a symbolic valid object equals, byte for byte and for all field values, the encoding produced by specification functions written from the cited RFC sections over independent combinators (never calling repository code), so a mistake made consistently in parse and compose is still caught; K3 of the same classes gives the parsing direction.',
+                note='the specification functions are transcribed from the RFCs from memory (no RFC text in the sandbox), each with its citation; hello messages, certificate request and the classes listed as uncovered have no K6 yet.',
+                technique='contract-based deductive verification: compose() == spec_RFC(fields) as postcondition over symbolic objects, z3')
+CLAIMED['C09'] = dict(ref='5.9', text='Clause K6 + K3 for TPKT, X.224 CR/CC, RDP negotiation request/response, MySQL packet header, OpenVPN control packets and TCP wrapper, PostgreSQL SSLRequest and its answer: compose() equals the specification encoding written from the protocol documents; the parsed class equals the class on the wire (class is part of object equality in K3).',
+                note='MySQL HandshakeV10/SSLRequest bodies and LDAP (asn1crypto) are not covered; the X.224 reference-field order is a known finding (test vectors pin it).',
+                technique='contract-based deductive verification: compose() == spec_PROTOCOL(fields) and round trip as postconditions over symbolic objects, z3')
 PENDING = {}
 NA = {
     'C18': 'relational property over RFC text grammars; every code path is ParserText scanning loops, attrs reflection in FieldValueMultiple, dateutil/urllib3/json: no contract within reach of the installed SMT back ends expresses or decides it (DESIGN.md 5.18)',
